@@ -31,6 +31,7 @@ class Run:
         if self.env is not None:
             self.env.close()
         self.env = E.Env()
+        self.env.R = self.R
         return self.env
 
     def shared(self):
@@ -238,7 +239,36 @@ def run_rs_hs(run, case):
 # helpers for pairs of library endpoints
 # =================================================================================================
 
+def pump_burst(env, link, rng, R=None, rounds=200):
+    """Everything in flight is handed to the peer in bursts: 2..6 data_received() calls per read event (asyncio)."""
+    import random as _random
+    rng = rng or _random.Random(0)
+    for _ in range(rounds):
+        link.collect()
+        srcs = [ep for ep in (link.a, link.b) if link.inflight[id(ep)]]
+        if not srcs:
+            return
+        src = rng.choice(srcs)
+        dst = link.peer_of(src)
+        buf = link.inflight[id(src)]
+        n = len(buf) if rng.random() < 0.7 else rng.randint(1, len(buf))
+        data = bytes(buf[:n])
+        del buf[:n]
+        if dst.lost or dst.close_requested is not None:
+            continue
+        k = min(len(data), rng.randint(2, 6))
+        offs = [0] + sorted(rng.sample(range(1, len(data)), k - 1)) + [len(data)] if len(data) > 1 else [0, len(data)]
+        chunks = [data[a:b] for a, b in zip(offs, offs[1:])]
+        fed = E.feed_burst(dst, chunks)
+        link.delivered[id(src)] += len(data)
+        env.world.settle()
+        if R is not None and fed >= 2 and env.world.fw == "aio":
+            R.count("aio_bursts_fed")
+
+
 def pump(env, link, rng=None, policy="whole", rounds=60):
+    if policy == "burst":
+        return pump_burst(env, link, rng, getattr(env, "R", None))
     seg = E.link_seg(policy)
     for _ in range(rounds):
         moved = link.pump_all(seg, rng)
@@ -644,14 +674,20 @@ def run_pair_stream(run, case):
                           {"error": repr(e)[:300]}, case)
             return
         env.world.settle()
-        if rng.random() < 0.5:
+        if policy == "burst":
+            if rng.random() < 0.35:
+                pump_burst(env, link, rng, R, rounds=rng.randint(1, 2))
+        elif rng.random() < 0.5:
             for _ in range(rng.randint(1, 4)):
                 src = rng.choice([c, s])
                 avail = link.pending(src)
                 if avail:
                     link.deliver(src, seg(rng, avail))
     pump(env, link, rng, policy)
+    # judged right after the last read event - no further traffic that could flush something still queued
     ok = check_delivery(run, key, case, c2s, sb.last, "c2s") and check_delivery(run, key, case, s2c, cb.last, "s2c")
+    if ok and policy == "burst" and fw == "aio":
+        R.count("aio_bursts_delivered")
     if s.close_requested or c.close_requested or s.lost or c.lost:
         run.violation(key + "/closed-unexpectedly", "transport closed during a well-formed conversation",
                       {"server": [s.close_requested, s.lost], "client": [c.close_requested, c.lost], "escaped": _escapes(env, [s, c])}, case)
@@ -780,6 +816,20 @@ class RawPeer:
         return fed
 
 
+def feed_bursts(rp, bursts, R=None):
+    n = 0
+    for chunks in bursts:
+        if rp.ep.lost or rp.ep.close_requested is not None:
+            break
+        fed = E.feed_burst(rp.ep, chunks)
+        if fed >= 2 and rp.env.world.fw == "aio":
+            n += 1
+    rp.env.world.settle()
+    if R is not None and n:
+        R.count("aio_bursts_fed", n)
+    return n
+
+
 def finish_one_sided(env, ep, tr, role, peer_replies, rounds=8):
     """Bring a one-sided connection down the way a peer / the framework would; returns True when the
     endpoint got its connection-lost."""
@@ -819,16 +869,28 @@ def run_raw_stream(run, case):
     rp.rng = random.Random(case["seed"] + 1)
     hs = rp.handshake_octets()
     body = b""
+    bounds = []            # offsets in ``body`` where a frame ends
     for sp in inbound:
         payload = rp.encode(sp)
         if tr == "ws" and case.get("fragment") and len(payload) > 2:
             cutp = rng.randint(1, len(payload) - 1)
             op = ref.OP_TEXT if rp.base == "json" else ref.OP_BIN
-            body += rp.frame(payload[:cutp], opcode=op, fin=False) + rp.frame(payload[cutp:], opcode=ref.OP_CONT)
+            body += rp.frame(payload[:cutp], opcode=op, fin=False)
+            bounds.append(len(body))
+            body += rp.frame(payload[cutp:], opcode=ref.OP_CONT)
         else:
             body += rp.frame(payload)
+        bounds.append(len(body))
     glue = tr == "rs" or role == "client"    # a WebSocket client must wait for the 101 before sending frames
-    if glue:
+    nbursts = 0
+    if case["policy"] == "burst":
+        # 2..6 data_received() calls per read event, cut between frames / inside headers and payloads / both
+        if glue and case.get("burst_glue_handshake", True):
+            nbursts += feed_bursts(rp, E.burst_cut(rng, hs + body, [len(hs)] + [len(hs) + b for b in bounds], case.get("burst_mode")), R)
+        else:
+            nbursts += feed_bursts(rp, E.burst_cut(rng, hs, [], "inside"), R)
+            nbursts += feed_bursts(rp, E.burst_cut(rng, body, bounds, case.get("burst_mode")), R)
+    elif glue:
         rp.feed_chunks(E.cut(rng, hs + body, case["policy"]))
     else:
         rp.feed_chunks(E.cut(rng, hs, case["policy"]))
@@ -839,10 +901,23 @@ def run_raw_stream(run, case):
         run.violation(key + "/not-attached", "valid handshake (+%d octets of frames) did not attach a session" % len(body),
                       {"escaped": _escapes(env, [rp.ep])}, case)
         return
-    ok = check_delivery(run, key, case, inbound, book.last, "in")
     if rp.ep.close_requested or rp.ep.lost:
-        run.violation(key + "/closed-unexpectedly", "transport closed during a well-formed conversation",
-                      {"escaped": _escapes(env, [rp.ep])}, case)
+        # the library gave up a well-formed conversation: one violation for the cause, not one per consequence
+        codes = list(rp.ep.proto.__dict__.get("vf_fail", []))
+        sess = book.last
+        clause = "closed-unexpectedly"
+        if 1011 in codes and inbound and not sess.msgs and not [e for e in sess.events if e[0] == "msg"]:
+            clause = "frame-dispatched-before-onOpen"       # internal failure before the attached session saw any message
+        run.violation("%s/%s" % (key, clause), "transport closed during a well-formed conversation (fail codes %r, %d of %d messages delivered)"
+                      % (codes, len(sess.msgs), len(inbound)),
+                      {"escaped": _escapes(env, [rp.ep]), "fail_codes": codes, "reason": str(getattr(rp.ep.proto, "wasNotCleanReason", None))[:200],
+                       "session_events": [list(e) for e in sess.events][:6]}, case)
+        finish_one_sided(env, rp.ep, tr, role, True)
+        return
+    # judged right after the last read event: nothing further is sent that could flush chunks still queued in the adapter
+    ok = check_delivery(run, key, case, inbound, book.last, "in")
+    if ok and nbursts:
+        R.count("aio_bursts_delivered", nbursts)
     frames, rest = rp.wire_messages()
     R.count("wire_frames_checked", len(frames))
     want_t = 0 if tr == "rs" else (ref.OP_TEXT if rp.base == "json" else ref.OP_BIN)
@@ -866,6 +941,12 @@ def run_raw_stream(run, case):
     down = finish_one_sided(env, rp.ep, tr, role, True) if (rp.ep.close_requested or rp.ep.lost) else (rp.ep.peer_close(clean=False) or True)
     env.world.settle()
     check_onclose_once(run, key, case, ((None, book),))
+    if ok:
+        # after the connection is gone: still exactly the messages sent (nothing dropped with the connection, nothing late)
+        check_delivery(run, key + "/after-close", case, inbound, book.last, "in")
+        if book.last is not None and len(book.last.msgs) != len(inbound):
+            run.violation(key + "/after-close/in/count", "%d messages delivered by the time the connection was gone, %d were sent"
+                          % (len(book.last.msgs), len(inbound)), {}, case)
     esc = _exc_names(env, [rp.ep])
     if esc:
         run.violation("%s/escaped-%s" % (key, esc[0]), "exception reached the framework during a well-formed conversation",
@@ -1399,7 +1480,20 @@ def run_mixed(run, case):
             chunk = bytes(buf[:n])
             del buf[:n]
             moved += n
-            if d == "l2r":
+            if case["policy"] == "burst" and len(chunk) > 1:
+                k = min(len(chunk), rng.randint(2, 6))
+                offs = [0] + sorted(rng.sample(range(1, len(chunk)), k - 1)) + [len(chunk)]
+                pieces = [chunk[a:b] for a, b in zip(offs, offs[1:])]
+                if d == "l2r":
+                    absorb(rem.call(op="feed_burst", data=[x.hex() for x in pieces]))
+                    if other == "aio":
+                        R.count("aio_bursts_fed")
+                else:
+                    E.feed_burst(ep, pieces)
+                    env.world.settle()
+                    if fw == "aio":
+                        R.count("aio_bursts_fed")
+            elif d == "l2r":
                 absorb(rem.call(op="feed", data=chunk.hex()))
             else:
                 ep.feed(chunk)
